@@ -272,6 +272,9 @@ struct AttackInfo {
     framing_intact: bool,
     peer_sent_close: bool,
     incoherent: bool,
+    /// the attack starts with a frame whose size field is below the header size or above the endpoint's
+    /// advertised max-frame-size: it has to be rejected, whatever the peer advertised for itself
+    must_reject: bool,
     label: &'static str,
 }
 
@@ -472,6 +475,10 @@ fn build_attack(c: &Case, cx: &Ctx) -> AttackInfo {
             }
         }
     }
+    if info.bytes.len() >= 4 {
+        let sz = u32::from_be_bytes([info.bytes[0], info.bytes[1], info.bytes[2], info.bytes[3]]);
+        info.must_reject = sz < 8 || sz > cx.ep_mfs;
+    }
     // a begin on the channel the peer is already using makes the peer's own later frames ambiguous:
     // no coherent cooperative follow-up exists, the peer goes away instead
     if info.framing_intact {
@@ -545,7 +552,7 @@ fn catalogue(v: u8, a: u32, b: u32, cx: &Ctx) -> (&'static str, Vec<Vec<u8>>, bo
         }
         12 => ("begin-again-same-channel", vec![f(PEER_CH, Peer::begin_body(if a % 2 == 0 { None } else { Some(cx.ep_ch) }, a, b, 100, None), &[])], false),
         13 => ("begin-unknown-remote-channel", vec![f(8, Peer::begin_body(Some((a % 65536) as u16), 0, 100, 100, None), &[])], false),
-        14 => ("second-open", vec![f(0, Peer::open_body("again", Some(a), Some((b % 65536) as u16), None), &[])], false),
+        14 => ("second-open", vec![f(0, Peer::open_body("again", Some(a), Some((b % 65536) as u16), match b % 4 { 0 => None, 1 => Some(0), 2 => Some(1), _ => Some(a) }), &[])], false),
         15 => ("open-on-session-channel", vec![f(PEER_CH, Peer::open_body("again", None, None, None), &[])], false),
         16 => ("transfer-without-delivery-id", vec![f(PEER_CH, Peer::transfer_body(RCV_PH, None, None, None, None, a % 2 == 0, None, false), &msg)], false),
         17 => ("transfer-delivery-id-jump", vec![f(PEER_CH, Peer::transfer_body(RCV_PH, Some(a), Some(b"j"), Some(0), Some(true), false, None, false), &msg)], false),
@@ -589,7 +596,7 @@ fn catalogue(v: u8, a: u32, b: u32, cx: &Ctx) -> (&'static str, Vec<Vec<u8>>, bo
         30 => {
             // an open with a max-frame-size below the protocol minimum / odd values
             let container = match b % 3 { 0 => "".to_string(), 1 => "verif-peer".to_string(), _ => "x".repeat(300) };
-            ("hostile-open", vec![f(0, Peer::open_body(&container, Some(a), Some(64 + (b % 1000) as u16), None), &[])], false)
+            ("hostile-open", vec![f(0, Peer::open_body(&container, Some(a), Some(64 + (b % 1000) as u16), if b % 5 == 0 { Some(0) } else { None }), &[])], false)
         }
         _ => {
             // many empty frames and empty-bodied frames on various channels: legal noise
@@ -790,7 +797,8 @@ async fn run_handshake(c: &Case) -> Result<Info, String> {
     let ep_gone = peer.eof || peer.io_error.is_some();
     log.push(format!("endpoint wrote after the attack: [{}]{}", resp.iter().map(|f| f.name()).collect::<Vec<_>>().join(","), if ep_gone { " and closed the transport" } else { "" }));
     info.reaction = if ep_close.is_some() || ep_gone { "connection-shut-down" } else { "ignored-or-accepted" };
-    let cooperative = atk.framing_intact && !ep_gone;
+    let cooperative = (atk.framing_intact || atk.must_reject) && !ep_gone;
+    let must_reject = atk.must_reject;
     // was the first attack frame itself a (possibly hostile) open on channel 0?
     let attack_opened = matches!(rframe::parse_stream(&atk.bytes), Ok((ref items, _)) if matches!(items.first(), Some(rframe::Item::Frame(f)) if f.name() == "open" && f.ftype == 0));
     let sacc = SessionAcceptor::builder().incoming_window(c.ep_window).outgoing_window(2048).buffer_size(64).build();
@@ -821,7 +829,7 @@ async fn run_handshake(c: &Case) -> Result<Info, String> {
             Ok(mut conn) => {
                 log.push("open/accept=Ok".into());
                 let mut probe_err = None;
-                if cooperative && ep_close.is_none() && !atk.peer_sent_close {
+                if cooperative && !must_reject && ep_close.is_none() && !atk.peer_sent_close {
                     let probe = async {
                         let mut ps = match &mut conn {
                             ConnH::C(cn) => SessH::C(Session::begin(cn).await.map_err(|e| format!("begin: {e:?}"))?),
@@ -857,6 +865,9 @@ async fn run_handshake(c: &Case) -> Result<Info, String> {
                 if ep_close == Some(true) && !conn_err {
                     errs.push("the endpoint closed the connection with an error, but close() on the connection handle reported success".into());
                 }
+                if must_reject && !conn_err {
+                    errs.push("a frame whose size field is below the frame header size or above the max-frame-size the endpoint advertised was not rejected: the connection was opened and closed cleanly".into());
+                }
             }
         }
         (log, errs)
@@ -875,16 +886,29 @@ async fn run_handshake(c: &Case) -> Result<Info, String> {
             }
         }
         tokio::pin!(app);
+        let mut peer_opt = Some(peer);
         loop {
-            tokio::select! {
-                biased;
-                r = &mut app => break r,
-                f = peer.next_frame() => {
-                    match f {
-                        Some(f) => { let _ = coop.on_frame(&mut peer, &f).await; }
-                        None => tokio::time::sleep(Duration::from_millis(5)).await,
+            let mut leave = false;
+            match peer_opt.as_mut() {
+                Some(p) => {
+                    tokio::select! {
+                        biased;
+                        r = &mut app => break r,
+                        f = p.next_frame() => {
+                            match f {
+                                Some(f) => { let _ = coop.on_frame(p, &f).await; }
+                                None => tokio::time::sleep(Duration::from_millis(5)).await,
+                            }
+                            // after a frame that had to be rejected the peer answers the close and hangs up,
+                            // as a real peer does (the endpoint cannot decode anything any more)
+                            leave = must_reject && coop.closed;
+                        }
                     }
                 }
+                None => break app.await,
+            }
+            if leave {
+                peer_opt = None;
             }
         }
     } else {
@@ -1129,7 +1153,10 @@ pub async fn run_async(c: &Case) -> Result<Info, String> {
         "ignored-or-accepted"
     };
     // ---- follow-up
-    let cooperative = atk.framing_intact && !ep_gone;
+    // after a frame that must be rejected the peer stays (silent, answering a close) so that a clean
+    // close handshake — the sign that the frame was accepted — can be told from a rejection
+    let cooperative = (atk.framing_intact || atk.must_reject) && !ep_gone;
+    let must_reject = atk.must_reject;
     let mut coop = Coop::default();
     if cx.has_session {
         coop.sessions.insert(cx.ep_ch, PEER_CH);
@@ -1144,7 +1171,7 @@ pub async fn run_async(c: &Case) -> Result<Info, String> {
     coop.closed = atk.peer_sent_close;
     let stage = c.stage;
     let role = c.role;
-    let conn_usable_expected = cooperative && ep_close.is_none() && !atk.peer_sent_close && stage != Stage::Closing;
+    let conn_usable_expected = cooperative && !must_reject && ep_close.is_none() && !atk.peer_sent_close && stage != Stage::Closing;
     let app_closing = std::rc::Rc::new(std::cell::Cell::new(false));
     let app_closing2 = app_closing.clone();
     let app = async {
@@ -1303,6 +1330,9 @@ pub async fn run_async(c: &Case) -> Result<Info, String> {
         if ep_detach_snd == Some(true) && ep_end.is_none() && ep_close.is_none() && !link_err_seen[1] && !gone_and_told {
             errs.push("the endpoint detached the sending link with an error, but no operation on that link reported an error".into());
         }
+        if must_reject && !conn_err_seen && stage != Stage::Closing {
+            errs.push("a frame whose size field is below the frame header size or above the max-frame-size the endpoint advertised was not rejected: the connection handle reports a clean close".into());
+        }
         let _ = (any_lower, role);
         (log, errs, probe_err, conn_err_seen)
     };
@@ -1325,24 +1355,35 @@ pub async fn run_async(c: &Case) -> Result<Info, String> {
             }
         }
         tokio::pin!(app);
+        let mut peer_opt = Some(peer);
         loop {
-            tokio::select! {
-                biased;
-                r = &mut app => break r,
-                f = peer.next_frame() => {
-                    match f {
-                        Some(f) => {
-                            if f.name() == "close" && !app_closing.get() {
-                                late_close = true;
+            let mut leave = false;
+            match peer_opt.as_mut() {
+                Some(p) => {
+                    tokio::select! {
+                        biased;
+                        r = &mut app => break r,
+                        f = p.next_frame() => {
+                            match f {
+                                Some(f) => {
+                                    if f.name() == "close" && !app_closing.get() {
+                                        late_close = true;
+                                    }
+                                    let _ = coop.on_frame(p, &f).await;
+                                }
+                                None => {
+                                    // endpoint closed its side: nothing more to answer
+                                    tokio::time::sleep(Duration::from_millis(5)).await;
+                                }
                             }
-                            let _ = coop.on_frame(&mut peer, &f).await;
-                        }
-                        None => {
-                            // endpoint closed its side: nothing more to answer
-                            tokio::time::sleep(Duration::from_millis(5)).await;
+                            leave = must_reject && coop.closed;
                         }
                     }
                 }
+                None => break app.await,
+            }
+            if leave {
+                peer_opt = None;
             }
         }
     } else {
@@ -1410,6 +1451,61 @@ pub fn run_case(c: &Case) -> Result<Info, String> {
         CaseEnd::Done(Err(e)) => Err(format!("{e}\n  wire:{}", simnet::describe_last_wire())),
         CaseEnd::Hang => Err(format!("HANG; wire so far:{}", simnet::describe_last_wire())),
     }
+}
+
+/// decode a coverage-guided input into a case: bytes 0..2 select role, state and frame size, the rest
+/// is the attack, sent verbatim
+pub fn fuzz_case(data: &[u8]) -> Case {
+    const STAGES: [Stage; 10] = [Stage::Header, Stage::Opened, Stage::Begun, Stage::RcvAttached, Stage::BothAttached, Stage::MidDelivery, Stage::SendPending, Stage::Closing, Stage::Ending, Stage::Detaching];
+    Case {
+        role: data[0] & 1,
+        stage: STAGES[(data[1] as usize) % STAGES.len()],
+        attack: Attack::Raw(data[3..].to_vec()),
+        repeat: 1,
+        ep_mfs: [512u32, 4096, 65536][(data[2] as usize) % 3],
+        ep_window: if data[2] & 0x80 != 0 { 3 } else { 2048 },
+        bystander: false,
+        tokio_seed: (data[0] >> 1) as u64,
+        choices: vec![],
+    }
+}
+
+/// entry point of the coverage-guided target (fuzz/fuzz_targets/c15_hostile.rs)
+pub fn fuzz_one(data: &[u8]) -> Result<(), String> {
+    static INIT: std::sync::Once = std::sync::Once::new();
+    INIT.call_once(crate::driver::install_panic_hook);
+    let c = fuzz_case(data);
+    match guarded(|| run_case(&c)) {
+        Ok(Ok(_)) => Ok(()),
+        Ok(Err(e)) if e.starts_with("HARNESS") => Ok(()),
+        Ok(Err(e)) => Err(e),
+        Err(p) => Err(format!("panic: {}", p.join(" | "))),
+    }
+}
+
+/// seed inputs for the coverage-guided target: every base performative in every state
+pub fn fuzz_seeds() -> Vec<Vec<u8>> {
+    let cx = Ctx { ep_ch: 0, ep_mfs: 4096, ep_rcv_h: 0, ep_snd_h: 1, next_did: 0, has_session: true, has_rcv: true, has_snd: true, ep_out_did: None };
+    let mut out = Vec::new();
+    for stage in 0..10u8 {
+        for base in 0..9u8 {
+            let (ch, v, p) = base_perf(base, &cx);
+            let mut d = vec![stage & 1, stage, 1];
+            d.extend(frame_bytes(0, ch, Some(&v), &p));
+            out.push(d);
+        }
+    }
+    for v in 0..N_CAT {
+        let (_, frames, _) = catalogue(v, 5, 7, &cx);
+        let mut d = vec![v & 1, 4, 1];
+        for f in frames.into_iter().take(4) {
+            if f.len() < 2000 {
+                d.extend(f);
+            }
+        }
+        out.push(d);
+    }
+    out
 }
 
 fn signature_of(e: &str) -> String {
